@@ -328,7 +328,11 @@ def _run_ddl(st: dict, cur: Any, env: core.Env) -> None:
                  (f"CREATE TABLE IF NOT EXISTS {name} (x INT, y INT)", f"{rep} already exists, statement succeeded."),
                  (f"DROP TABLE {name}", f"{rep} successfully dropped."),
                  (f"CREATE TABLE IF NOT EXISTS {name} (x INT)", f"Table {rep} successfully created."),
-                 (f"DROP TABLE {name}", f"{rep} successfully dropped.")]
+                 (f"DROP TABLE {name}", f"{rep} successfully dropped."),
+                 (f"CREATE TABLE DB1.S1.{name} (x INT)", f"Table {rep} successfully created."),
+                 (f"DROP TABLE IF EXISTS db1.s1.{name}", f"{rep} successfully dropped."),
+                 (f"CREATE OR REPLACE TABLE S1.{name} (x INT)", f"Table {rep} successfully created."),
+                 (f"DROP TABLE IF EXISTS S1.{name}", f"{rep} successfully dropped.")]
     elif kind == "table_as":
         steps = [(f"CREATE OR REPLACE TABLE {name} AS SELECT A, B FROM SRC", f"Table {rep} successfully created."),
                  (f"DROP TABLE IF EXISTS {name}", f"{rep} successfully dropped.")]
@@ -336,8 +340,13 @@ def _run_ddl(st: dict, cur: Any, env: core.Env) -> None:
         steps = [(f"CREATE VIEW {name} AS SELECT A FROM SRC", f"View {rep} successfully created."),
                  (f"DROP VIEW {name}", f"{rep} successfully dropped.")]
     else:
+        # the same schema under its bare and its database-qualified name, with and without IF [NOT] EXISTS: the message names the schema
         steps = [(f"CREATE SCHEMA {name}", f"Schema {rep} successfully created."),
-                 (f"DROP SCHEMA {name}", f"{rep} successfully dropped.")]
+                 (f"DROP SCHEMA {name}", f"{rep} successfully dropped."),
+                 (f"CREATE SCHEMA DB1.{name}", f"Schema {rep} successfully created."),
+                 (f"DROP SCHEMA IF EXISTS DB1.{name}", f"{rep} successfully dropped."),
+                 (f"CREATE SCHEMA IF NOT EXISTS db1.{name}", f"Schema {rep} successfully created."),
+                 (f"DROP SCHEMA db1.{name}", f"{rep} successfully dropped.")]
     for sql, status in steps:
         out = core.run_stmt(cur, sql)
         cmd = " ".join(sql.split()[:2]) + ("/" + kind)
